@@ -358,7 +358,7 @@ func c16Check(h []byte, via string) (kind, msg string) {
 }
 
 func runC16(r *core.Run) {
-	r.Rule = "128-byte headers: all-zeros, all-ones, walking one over all 1024 bit positions on three backgrounds, every value of every byte on one background, every valid date-time component, selected years, seeded random headers (1e5 quick / 1e7 thorough), read through ReadProfile with a minimal one-tag table and (a subset) through meta.Data.ICCProfile() after embedding in a PNG; all 65536 version byte pairs through Version.String(); non-trivial = distinct headers differing from the zero header in a field other than size and ID"
+	r.Rule = "128-byte headers: all-zeros, all-ones, walking one over all 1024 bit positions on three backgrounds, every value of every byte on one background, every valid date-time component, selected years, seeded random headers (1e5 quick / 6e7 thorough), read through ReadProfile with a minimal one-tag table and (a subset) through meta.Data.ICCProfile() after embedding in a PNG; all 65536 version byte pairs through Version.String(); non-trivial = distinct headers differing from the zero header in a field other than size and ID"
 	r.Assumptions = []string{"ICC.1:2010 section 7.2 header layout as transcribed in props/c16.go; flags bit 0 / bit 1 counted from the least significant bit of the u32 at offset 44", "time.Date normalisation of out-of-range date components is the standard library's and is applied on both sides"}
 	rng := core.NewRNG(r.Seed, "C16")
 	base := func(kind int) []byte {
@@ -565,7 +565,7 @@ func runC16(r *core.Run) {
 	}
 	nrand := 100000
 	if r.Thorough() {
-		nrand = 10000000
+		nrand = 60000000
 	}
 	zero := c16Oracle(base(0))
 	nontrivial := func(h []byte) bool {
